@@ -130,3 +130,29 @@ func (s *Script) Finish() *HistResult {
 	}
 	return s.h.finish(s.ok)
 }
+
+// TimeoutReq completes the oldest outstanding request on the subject with a timeout.
+func (s *Script) TimeoutReq(subject string) bool {
+	s.Quiesce()
+	for _, r := range s.h.g.Bus.Outstanding() {
+		if r.Subject == subject {
+			s.h.logf("answer %s timeout", subject)
+			s.h.g.Bus.Timeout(r)
+			return true
+		}
+	}
+	return false
+}
+
+// ReplyRaw answers the oldest outstanding request on the subject with a raw payload.
+func (s *Script) ReplyRaw(subject, payload string) bool {
+	s.Quiesce()
+	for _, r := range s.h.g.Bus.Outstanding() {
+		if r.Subject == subject {
+			s.h.logf("answer %s raw %s", subject, payload)
+			s.h.g.Bus.Reply(r, []byte(payload), nil)
+			return true
+		}
+	}
+	return false
+}
